@@ -577,7 +577,13 @@ func (c *compiler) compile(tok *token) []instruction {
 			if len(args) > 0 && args[len(args)-1].Symbol == "..." {
 				ellipsis = 1
 			}
-			res = append(res, instruction{Code: code, A: reg(len(args)), B: reg(ellipsis)})
+			ins := instruction{Code: code, A: reg(len(args)), B: reg(ellipsis)}
+			if code == codeCopy {
+				// copy is the one builtin statement that also has a result: C is the number
+				// of results the context asks for (0 as a statement, else the element count)
+				ins.C = reg(tok.Tokens[callReturns].Int())
+			}
+			res = append(res, ins)
 		} else {
 			fnc := c.compile(tok.Tokens[callName])
 			if len(fnc) == 1 && fnc[0].Code == codeGlobalGet {
